@@ -4,6 +4,8 @@
 EXTENDS RepoCore
 
 CONSTANT AliasKeys      \* BOOLEAN: legacy code handed out the dict key object
+CONSTANT ArrayOneWay    \* BOOLEAN: realistic wrong variant: is_array checked in
+                        \* one direction only (array for scalar)
 
 IRow(ns, c, k, r) == [idx |-> <<ns, c, k>>, path |-> <<ns, c, k>>, row |-> r,
                       handed |-> FALSE]
@@ -23,8 +25,18 @@ Resp(ok, code, rk, rinsts) ==
 NoKey == [ns |-> 0, cls |-> "", k |-> 0]
 Err(code) == Resp(FALSE, code, NoKey, <<>>)
 
-ValidateProps(c) ==   \* _validate_property on every supplied property
-  c.badprop = "none" /\ \A p \in Given(c) : p \in Exposed(c.cls)
+(* _validate_property on every supplied property: declared by the creation  *)
+(* class, same CIM type, same is_array                                      *)
+ValidateShape(cls, tok) ==
+  \/ tok = "none"
+  \/ /\ tok # "undeclared"
+     /\ LET sh == ShapeByTok[tok] IN
+        /\ sh.on \in Exposed(cls)
+        /\ sh.ty = DeclType(sh.on)
+        /\ IF ArrayOneWay THEN (sh.arr = "ar") => DeclArr(sh.on)
+           ELSE (sh.arr = "ar") = DeclArr(sh.on)
+ValidateProps(c) ==
+  ValidateShape(c.cls, c.badprop) /\ \A p \in Given(c) : p \in Exposed(c.cls)
 
 ImplCreate(st, c) ==
   IF c.ns \notin LiveNs THEN <<Err(E_INVALID_NAMESPACE), st>>
@@ -37,12 +49,15 @@ ImplCreate(st, c) ==
                      !.handed = AliasKeys]}>>
 
 ImplModify(st, c) ==
-  IF c.ns \notin LiveNs THEN <<Err(E_INVALID_NAMESPACE), st>>
+  IF c.icls # c.cls THEN <<Err(E_INVALID_PARAMETER), st>>  \* names compared
+  ELSE IF c.ns \notin LiveNs THEN <<Err(E_INVALID_NAMESPACE), st>>
   ELSE IF c.cls \notin Classes THEN <<Err(E_INVALID_CLASS), st>>
   ELSE IF Lookup(st, c.ns, c.cls, c.k) = {} THEN <<Err(E_NOT_FOUND), st>>
   ELSE IF PlistUndeclared(c) THEN <<Err(E_INVALID_PARAMETER), st>>
   ELSE IF ~ValidateProps(c) THEN <<Err(E_INVALID_PARAMETER), st>>
   ELSE IF c.kprop \notin {0, c.k} THEN <<Err(E_INVALID_PARAMETER), st>>
+  \* listed key property not supplied: would be set to the NULL default
+  ELSE IF c.kprop = 0 /\ KeyListed(c) THEN <<Err(E_INVALID_PARAMETER), st>>
   ELSE LET x == CHOOSE y \in Lookup(st, c.ns, c.cls, c.k) : TRUE
            nv(p) == IF p \notin Exposed(c.cls) THEN "na"
                     ELSE IF c.hasplist
